@@ -95,6 +95,63 @@ def rand_atom(rng):
     return "{{ format_timestamp(value=" + t + ("" if f is None else ", format=" + tera_str(f)) + ") }}", ["fmt_ts", a, ohx(f)]
 
 
+def binary_template_equals_direct(run, rng, n):
+    import time
+    from .cli import run_procs, ron_texts, mask_now, gen_version_case
+    from .c05 import flags_to_argv, rand_named_flags
+    cases = []
+    for _ in range(n):
+        if rng.random() < 0.5:
+            c = gen_version_case(rng)
+        else:
+            s = zgen.rand_schema(rng, valid=True)
+            v = zgen.rand_vars(rng)
+            v["dirty"] = rng.choice([None, False])
+            argv = ["--source=stdin"]
+            for sec, flag in (("core", "core"), ("extra", "extra-core"), ("build", "build")):
+                L = len(s[sec])
+                for _ in range(rng.choice([0, 1, 1, 2])):
+                    i = rng.randint(0, max(L - 1, 0))
+                    val = rng.choice(["0", "1", "5", "x", "stable", "rel", "007", "{{ major }}", "{{ bumped_branch }}", "nightly"])
+                    if rng.random() < 0.7:
+                        argv.append(f"--{flag}={i}={val}")
+                    else:
+                        argv.append(f"--bump-{flag}={i}" + (f"={rng.choice(['1', '2', '{{ distance }}'])}" if rng.random() < 0.6 else ""))
+            argv += flags_to_argv(rand_named_flags(rng) if rng.random() < 0.4 else {}, rng)
+            c = {"cmd": "version", "argv": argv, "stdin_obj": (s, v)}
+        cases.append(c)
+    objs = [c["stdin_obj"] for c in cases if c.get("stdin_obj")]
+    texts = iter(ron_texts(objs)) if objs else iter([])
+    jobs = []
+    for c in cases:
+        inp = next(texts).encode() if c.get("stdin_obj") else None
+        base = [c["cmd"]] + c["argv"]
+        jobs += [(base + ["--output-format=semver"], inp), (base + ["--output-format=pep440"], inp),
+                 (base + ["--output-template={{ semver }}\x1f{{ pep440 }}\x1f{{ semver_obj.base_part }}{% if semver_obj.pre_release_part %}-{{ semver_obj.pre_release_part }}{% endif %}{% if semver_obj.build_part %}+{{ semver_obj.build_part }}{% endif %}"], inp)]
+    res = run_procs(jobs, timeout=60)
+    now = int(time.time())
+    st = run.streams.setdefault("binary_template_equals_direct_rendering", {"cases": 0, "all_three_succeed": 0})
+    for k, c in enumerate(cases):
+        (r1, o1, e1), (r2, o2, e2), (r3, o3, e3) = res[3 * k: 3 * k + 3]
+        st["cases"] += 1
+        run.evaluations += 1
+        desc = {"argv": [c["cmd"]] + c["argv"], "stdin": (jobs[3 * k][1] or b"").decode("utf-8", "replace")[:1500]}
+        if (r1 == 0) != (r3 == 0) and not (r1 == 0 and r2 != 0):
+            # the template needs both renderings: it may fail when the PEP 440 one does, not otherwise
+            run.add_violation("oracle", {"stream": "binary_template_equals_direct_rendering", "what": "--output-template succeeds / fails differently from --output-format", "described": desc,
+                                         "direct": [r1, e1.decode("utf-8", "replace")[-200:]], "template": [r3, e3.decode("utf-8", "replace")[-200:]]}, True)
+            continue
+        if not (r1 == 0 and r2 == 0 and r3 == 0):
+            continue
+        st["all_three_succeed"] += 1
+        t = mask_now(o3.decode("utf-8", "replace").rstrip("\n"), now).split("\x1f")
+        d1, d2 = mask_now(o1.decode("utf-8", "replace").rstrip("\n"), now), mask_now(o2.decode("utf-8", "replace").rstrip("\n"), now)
+        run.nontrivial.add(d1)
+        if len(t) != 3 or t[0] != d1 or t[1] != d2 or t[2] != d1:
+            run.add_violation("oracle", {"stream": "binary_template_equals_direct_rendering", "what": "{{ semver }} / {{ pep440 }} / the recomposed parts differ from what --output-format prints for the same command line",
+                                         "described": desc, "direct": [d1, d2], "template": t}, True)
+
+
 def run_check(tier, seed):
     run = Run(PID, tier, seed)
     rng = random.Random(seed * 1000003 + 15)
@@ -113,6 +170,11 @@ def run_check(tier, seed):
         cases.append(f"TPL {hx(tpl)} {zgen.enc_zerv(s, v)} T {k} {toks}")
     res = correspond(run, "template_atoms_vs_model", cases, nontrivial=lambda c, r: r.startswith("OK x") and len(r) > 6,
                      describe=lambda c: {"template": unhx(c.split(" ")[1]), "object": c.split(" T ")[0][:1200]})
+
+    # ---- stream 1b: through the binary: `--output-template "{{ semver }}"` / "{{ pep440 }}" must print what --output-format semver / pep440
+    # prints for the SAME command line - with overrides, bumps and schema-index operations in it (values that are themselves templates are
+    # rendered before the components are processed, so a context built too early, or cached, shows up here)
+    binary_template_equals_direct(run, rng, 400 if q else 4000)
 
     # ---- stream 2: coherence laws checked on the implementation's own output (independent of the model)
     laws = []
